@@ -271,6 +271,9 @@ LINES = {
     "help-dflt-too-many": ("help dflt a b", True),  # help request whose arguments do not parse strictly
     "help-top-sub": ("help top sub", True),         # two sub-commands with the same short name in different places
     "help-other-sub": ("help other sub", True),
+    "fac": ("fac", True),                            # handler configured through a factory
+    "paint": ("paint", True),                        # registers a style on the formatters of its own run's IO
+    "show": ("show", True),                          # writes that tag without registering it
     # spares: VERIF_SEED rotates exactly one of them into the full alphabet
     "valid-ansi": ("foo a --ansi", True),
     "help-top": ("help top", True),
@@ -281,7 +284,7 @@ LINES = {
 }
 CORE = ["valid", "bad-option", "too-many", "help", "help-foo", "help-len", "foo-h", "version", "unknown",
         "len-surplus", "raise-vvv", "sub", "raise-vvv-ascii", "dflt-too-many", "help-dflt-too-many",
-        "help-top-sub", "help-other-sub"]
+        "help-top-sub", "help-other-sub", "fac", "paint", "show"]
 CORE_REDUCED = ["valid", "help-len", "len-surplus", "help-dflt-too-many", "dflt-too-many", "version", "raise-vvv"]
 REDUCED_ROT = ["too-many", "foo-h", "bad-option", "help-foo", "unknown", "sub", "raise-vvv-ascii", "help"]
 SPARES = ["valid-ansi", "help-top", "top-h", "len-h", "valid-quiet", "top"]
@@ -294,7 +297,7 @@ def build_app(mode):
     from clikit.api.args.format import Argument, Option
     from clikit.args.default_args_parser import DefaultArgsParser
     from clikit.config import DefaultApplicationConfig
-    from props._c17_fixtures import handler
+    from props._c17_fixtures import PerRunHandler, handler, styled_handler
 
     c = DefaultApplicationConfig("app", "1.2.3")
     c.set_catch_exceptions(True)
@@ -317,6 +320,15 @@ def build_app(mode):
             s.set_description("The sub-command")
             s.add_argument("x", Argument.OPTIONAL, "An argument")
             s.set_handler(handler("top sub", 3))
+    with c.command("fac") as f:  # the handler is given as a factory: every run asks the factory
+        f.set_description("A command whose handler comes from a factory")
+        f.set_handler(PerRunHandler)
+    with c.command("paint") as f:
+        f.set_description("Registers a style on its IO and uses it")
+        f.set_handler(styled_handler("paint", True))
+    with c.command("show") as f:
+        f.set_description("Uses a tag nobody registered for this run")
+        f.set_handler(styled_handler("show", False))
     with c.command("other") as f:  # a second sub-command called "sub", with other parameters
         f.set_description("Another command with a sub-command of the same name")
         f.set_handler(handler("other", 2))
@@ -549,6 +561,7 @@ FACTORIES.update({
     "labeled/plain": ("LabeledParagraph", IO_BASIC),
     "labeled/unaligned": ("LabeledParagraph", IO_BASIC),
     "labeled/aligned": ("LabeledParagraph", IO_BASIC),
+    "labeled/aligned-indented": ("LabeledParagraph", IO_BASIC),
     "emptyline": ("EmptyLine", ["plain", "ansi"]),
     "nameversion/full": ("NameVersion", IO_BASIC),
     "nameversion/bare": ("NameVersion", ["plain", "ansi"]),
@@ -608,7 +621,7 @@ def build_component(name):
         return LabeledParagraph("<c1>--opt</c1> (-o)", LONG_TEXT), {}
     if name == "labeled/unaligned":
         return LabeledParagraph("label", "text", 1, False), {"indentation": 2}
-    if name == "labeled/aligned":
+    if name in ("labeled/aligned", "labeled/aligned-indented"):
         p = LabeledParagraph("x", LONG_TEXT)
         q = LabeledParagraph("a-longer-label", "other")
         al = LabelAlignment()
@@ -620,7 +633,7 @@ def build_component(name):
             def render(self, io, indentation=0):
                 al.align(io, indentation)
                 p.render(io, 2 + indentation)
-        return Aligned(), {}
+        return Aligned(), ({"indentation": 2} if name.endswith("indented") else {})
     if name == "emptyline":
         return EmptyLine(), {}
     if name == "nameversion/full":
